@@ -20,6 +20,7 @@ def main():
         from symex import models, engine
         mod = importlib.import_module('harness.' + mod_name)
         patches = models.overrides(m1=getattr(mod, 'M1', True))
+        models.install_opcode_models(m1=getattr(mod, 'M1', True))
         jobs = {j.id: j for j in mod.jobs(tier)}
         job = jobs[job_id]
         scale = float(os.environ.get('VERIF_BUDGET_SCALE', '1'))
